@@ -226,4 +226,270 @@ example : Sorted (sortBlocks [{ level := 2, length := 11, vals := [3079, 0, 0, 0
     { level := 1, length := 5, vals := [0, 1, 2] }, { level := 2, length := 11, vals := [2081, 0, 0, 0, 0, 0, 0] }]) :=
   sortBlocks_sorted _
 
+/-! ## the invariant over arbitrary operation sequences -/
+
+/-- a container is consistent: stored count = number of blocks, every block's level belongs to the container -/
+def ContOk (w : Which) (c : Container) : Prop :=
+  c.num_ext_blocks = c.blocks.length ∧ ∀ x ∈ c.blocks, (allowedOf w).contains x.level = true
+
+/-- the DM payload is consistent: each present container is -/
+def DmInv (d : DmData) : Prop := ∀ w c, d.get w = some c → ContOk w c
+
+theorem get_set_same (d : DmData) (w : Which) (c : Container) : (d.set w c).get w = some c := by
+  cases w <;> rfl
+
+theorem get_set_other (d : DmData) (w w' : Which) (c : Container) (h : w' ≠ w) : (d.set w c).get w' = d.get w' := by
+  cases w <;> cases w' <;> first | rfl | exact absurd rfl h
+
+theorem whichContainer_allowed {level : Nat} {w : Which} (h : whichContainer level = some w) :
+    (allowedOf w).contains level = true := by
+  unfold whichContainer at h
+  split at h
+  · injection h with h; subst h; assumption
+  · split at h
+    · injection h with h; subst h; assumption
+    · cases h
+
+theorem inv_set (d : DmData) (w : Which) (c : Container) (hd : DmInv d) (hc : ContOk w c) : DmInv (d.set w c) := by
+  intro w' c' hg
+  by_cases hw : w' = w
+  · subst hw
+    rw [get_set_same] at hg
+    injection hg with hg
+    subst hg
+    exact hc
+  · rw [get_set_other d w w' c hw] at hg
+    exact hd w' c' hg
+
+theorem addBlock_inv (d d' : DmData) (b : Block) (hd : DmInv d) (h : d.addBlock b = .ok d') : DmInv d' := by
+  unfold DmData.addBlock at h
+  split at h
+  · injection h with h; subst h; exact hd
+  · rename_i w hw
+    split at h
+    · injection h with h; subst h; exact hd
+    · rename_i c hc
+      cases ha : c.addBlock (allowedOf w) b with
+      | error => simp [ha, Res.bind] at h
+      | panic => simp [ha, Res.bind] at h
+      | ok c' =>
+        simp only [ha, Res.bind] at h
+        injection h with h
+        subst h
+        obtain ⟨_, hcnt, _⟩ := addBlock_sorted _ c c' b ha
+        refine inv_set d w c' hd ⟨hcnt, ?_⟩
+        have hlv := addBlock_levels (allowedOf w) c c' b (fun x hx => by
+          have := (hd w c hc).2 x hx
+          simpa using this) ha
+        intro x hx
+        simpa using hlv x hx
+
+theorem removeLevel_inv (d : DmData) (level : Nat) (hd : DmInv d) : DmInv (d.removeLevel level) := by
+  unfold DmData.removeLevel
+  split
+  · exact hd
+  · rename_i w hw
+    split
+    · exact hd
+    · rename_i c hc
+      refine inv_set d w _ hd ⟨(removeLevel_sorted c level).2.1, ?_⟩
+      intro x hx
+      exact (hd w c hc).2 x (removeLevel_spec c level x hx).1
+
+theorem replaceBlock_inv (d d' : DmData) (b : Block) (hd : DmInv d) (h : d.replaceBlock b = .ok d') : DmInv d' := by
+  unfold DmData.replaceBlock at h
+  split at h
+  · split at h
+    · cases h
+    · rename_i w hw
+      split at h
+      · cases h
+      · rename_i c hc
+        injection h with h
+        subst h
+        obtain ⟨_, hcnt, _, _, _⟩ := replaceKeyed_upsert c b
+        refine inv_set d w _ hd ⟨hcnt, ?_⟩
+        intro x hx
+        have hp : (c.replaceKeyed b).blocks.Perm (replaceFirstOrPush (sameKey b) b c.blocks) := sortBlocks_perm _
+        have hx' := hp.subset hx
+        -- every element of the upserted list is `b` or an old block
+        have : ∀ (l : List Block) (y : Block), y ∈ replaceFirstOrPush (sameKey b) b l → y = b ∨ y ∈ l := by
+          intro l
+          induction l with
+          | nil => intro y hy; simp [replaceFirstOrPush] at hy; exact Or.inl hy
+          | cons z zs ih =>
+            intro y hy
+            simp only [replaceFirstOrPush] at hy
+            split at hy
+            · rcases List.mem_cons.mp hy with rfl | hy'
+              · exact Or.inl rfl
+              · exact Or.inr (List.mem_cons_of_mem _ hy')
+            · rcases List.mem_cons.mp hy with rfl | hy'
+              · exact Or.inr (by simp)
+              · rcases ih y hy' with rfl | h2
+                · exact Or.inl rfl
+                · exact Or.inr (List.mem_cons_of_mem _ h2)
+        rcases this _ x hx' with rfl | hold
+        · exact whichContainer_allowed hw
+        · exact (hd w c hc).2 x hold
+  · split at h
+    · cases h
+    · unfold DmData.replaceLevel at h
+      exact addBlock_inv _ d' b (removeLevel_inv d b.level hd) h
+
+theorem replaceBlocks_inv (bs : List Block) : ∀ (d d' : DmData), DmInv d → d.replaceBlocks bs = .ok d' → DmInv d' := by
+  induction bs with
+  | nil => intro d d' hd h; simp only [DmData.replaceBlocks] at h; injection h with h; subst h; exact hd
+  | cons b bs ih =>
+    intro d d' hd h
+    simp only [DmData.replaceBlocks] at h
+    cases hb : d.replaceBlock b with
+    | error => simp [hb, Res.bind] at h
+    | panic => simp [hb, Res.bind] at h
+    | ok d1 =>
+      simp only [hb, Res.bind] at h
+      exact ih d1 d' (replaceBlock_inv d d1 b hd hb) h
+
+/-- the block operations of the public surface -/
+inductive BlockOp where
+  | add (b : Block)
+  | replace (b : Block)
+  | replaceLevel (b : Block)
+  | removeLevel (level : Nat)
+  | replaceMany (bs : List Block)
+
+def applyOp (d : DmData) : BlockOp → Res DmData
+  | .add b => d.addBlock b
+  | .replace b => d.replaceBlock b
+  | .replaceLevel b => d.replaceLevel b
+  | .removeLevel l => .ok (d.removeLevel l)
+  | .replaceMany bs => d.replaceBlocks bs
+
+def applyOps : DmData → List BlockOp → Res DmData
+  | d, [] => .ok d
+  | d, op :: ops => (applyOp d op).bind fun d' => applyOps d' ops
+
+/-- **C12, invariant over every operation sequence**: starting from a consistent DM payload (e.g. any parse
+result), after any sequence of add / replace / replace-level / remove-level / replace-many operations that
+succeeds, every block still lives in the container its level belongs to and each stored count equals the
+number of blocks. -/
+theorem ops_preserve_inv (ops : List BlockOp) : ∀ (d d' : DmData), DmInv d → applyOps d ops = .ok d' → DmInv d' := by
+  induction ops with
+  | nil => intro d d' hd h; simp only [applyOps] at h; injection h with h; subst h; exact hd
+  | cons op ops ih =>
+    intro d d' hd h
+    simp only [applyOps] at h
+    cases ho : applyOp d op with
+    | error => simp [ho, Res.bind] at h
+    | panic => simp [ho, Res.bind] at h
+    | ok d1 =>
+      simp only [ho, Res.bind] at h
+      refine ih d1 d' ?_ h
+      cases op with
+      | add b => exact addBlock_inv d d1 b hd ho
+      | replace b => exact replaceBlock_inv d d1 b hd ho
+      | replaceLevel b =>
+        simp only [applyOp, DmData.replaceLevel] at ho
+        exact addBlock_inv _ d1 b (removeLevel_inv d b.level hd) ho
+      | removeLevel l =>
+        simp only [applyOp] at ho
+        injection ho with ho
+        subst ho
+        exact removeLevel_inv d l hd
+      | replaceMany bs => exact replaceBlocks_inv bs d d1 hd ho
+
+/-- the presence of the containers never changes: an absent container stays absent (nothing is stored for it) -/
+theorem ops_keep_presence (ops : List BlockOp) : ∀ (d d' : DmData) (w : Which), applyOps d ops = .ok d' →
+    (d'.get w).isSome = (d.get w).isSome := by
+  have hset : ∀ (d : DmData) (w w' : Which) (c c0 : Container), d.get w = some c0 →
+      ((d.set w c).get w').isSome = (d.get w').isSome := by
+    intro d w w' c c0 h0
+    by_cases hw : w' = w
+    · subst hw; rw [get_set_same, h0]; rfl
+    · rw [get_set_other d w w' c hw]
+  have hadd : ∀ (d d1 : DmData) (b : Block) (w : Which), d.addBlock b = .ok d1 → (d1.get w).isSome = (d.get w).isSome := by
+    intro d d1 b w h
+    unfold DmData.addBlock at h
+    split at h
+    · injection h with h; subst h; rfl
+    · rename_i w0 hw0
+      split at h
+      · injection h with h; subst h; rfl
+      · rename_i c hc
+        cases ha : c.addBlock (allowedOf w0) b with
+        | error => simp [ha, Res.bind] at h
+        | panic => simp [ha, Res.bind] at h
+        | ok c' =>
+          simp only [ha, Res.bind] at h
+          injection h with h; subst h
+          exact hset d w0 w c' c hc
+  have hrem : ∀ (d : DmData) (l : Nat) (w : Which), ((d.removeLevel l).get w).isSome = (d.get w).isSome := by
+    intro d l w
+    unfold DmData.removeLevel
+    split
+    · rfl
+    · rename_i w0 hw0
+      split
+      · rfl
+      · rename_i c hc
+        exact hset d w0 w _ c hc
+  have hrep : ∀ (d d1 : DmData) (b : Block) (w : Which), d.replaceBlock b = .ok d1 → (d1.get w).isSome = (d.get w).isSome := by
+    intro d d1 b w h
+    unfold DmData.replaceBlock at h
+    split at h
+    · split at h
+      · cases h
+      · rename_i w0 hw0
+        split at h
+        · cases h
+        · rename_i c hc
+          injection h with h; subst h
+          exact hset d w0 w _ c hc
+    · split at h
+      · cases h
+      · unfold DmData.replaceLevel at h
+        rw [hadd _ d1 b w h, hrem]
+  have hmany : ∀ (bs : List Block) (d d1 : DmData) (w : Which), d.replaceBlocks bs = .ok d1 →
+      (d1.get w).isSome = (d.get w).isSome := by
+    intro bs
+    induction bs with
+    | nil => intro d d1 w h; simp only [DmData.replaceBlocks] at h; injection h with h; subst h; rfl
+    | cons b bs ih =>
+      intro d d1 w h
+      simp only [DmData.replaceBlocks] at h
+      cases hb : d.replaceBlock b with
+      | error => simp [hb, Res.bind] at h
+      | panic => simp [hb, Res.bind] at h
+      | ok d2 =>
+        simp only [hb, Res.bind] at h
+        rw [ih d2 d1 w h, hrep d d2 b w hb]
+  induction ops with
+  | nil => intro d d' w h; simp only [applyOps] at h; injection h with h; subst h; rfl
+  | cons op ops ih =>
+    intro d d' w h
+    simp only [applyOps] at h
+    cases ho : applyOp d op with
+    | error => simp [ho, Res.bind] at h
+    | panic => simp [ho, Res.bind] at h
+    | ok d1 =>
+      simp only [ho, Res.bind] at h
+      rw [ih d1 d' w h]
+      cases op with
+      | add b => exact hadd d d1 b w ho
+      | replace b => exact hrep d d1 b w ho
+      | replaceLevel b =>
+        simp only [applyOp, DmData.replaceLevel] at ho
+        rw [hadd _ d1 b w ho, hrem]
+      | removeLevel l =>
+        simp only [applyOp] at ho
+        injection ho with ho; subst ho
+        exact hrem d l w
+      | replaceMany bs => exact hmany bs d d1 w ho
+
+/-- non-vacuity: the generator-style payload (CM v2.9 with L1, CM v4.0 with L254) is consistent -/
+example : DmInv { cmv29 := some { num_ext_blocks := 1, blocks := [{ level := 1, length := 5, vals := [0, 1, 2] }] },
+                  cmv40 := some { num_ext_blocks := 1, blocks := [{ level := 254, length := 2, vals := [0, 2] }] } } := by
+  intro w c h
+  cases w <;> (injection h with h; subst h; exact ⟨rfl, by decide⟩)
+
 end Dovi.C12
